@@ -1,4 +1,5 @@
 /* ll2c runtime models, included at the end of every generated translation unit (prototype). */
+i64 __ll2c_last_in = 0; u64 __ll2c_in_count = 0;
 int __ll2c_exc_active = 0; void *__ll2c_exc_ptr = 0; void *__ll2c_exc_type = 0; int __ll2c_exc_sel = 0;
 static u64 __ll2c_cttz64(u64 x) { u64 n = 0; if (x == 0) return 64; if (!(x & 0xFFFFFFFFUL)) { n += 32; x >>= 32; } if (!(x & 0xFFFF)) { n += 16; x >>= 16; } if (!(x & 0xFF)) { n += 8; x >>= 8; } if (!(x & 0xF)) { n += 4; x >>= 4; } if (!(x & 3)) { n += 2; x >>= 2; } if (!(x & 1)) n += 1; return n; }
 static u32 __ll2c_cttz32(u32 x) { return x == 0 ? 32 : (u32)__ll2c_cttz64(x); }
@@ -9,16 +10,16 @@ static u32 __ll2c_ctlz32(u32 x) { return x == 0 ? 32 : (u32)(__ll2c_ctlz64(x) - 
 static void __ll2c_umul_ov64(u64 a, u64 b, u64 *r, _Bool *o) { u128 p = (u128)a * b; *r = (u64)p; *o = (p >> 64) != 0; }
 static void __ll2c_uadd_ov64(u64 a, u64 b, u64 *r, _Bool *o) { *r = a + b; *o = *r < a; }
 #ifdef NEED__Znwm
-u8 *F__Znwm(u64 n) { u8 *p = malloc(n); __CPROVER_assume(p != 0); return p; }
+u8 *F__Znwm(u64 n) { u8 *p = LL2C_MALLOC(n); return p; }
 #endif
 #ifdef NEED__Znam
-u8 *F__Znam(u64 n) { u8 *p = malloc(n); __CPROVER_assume(p != 0); return p; }
+u8 *F__Znam(u64 n) { u8 *p = LL2C_MALLOC(n); return p; }
 #endif
 #ifdef NEED__ZdlPv
-void F__ZdlPv(u8 *p) { free(p); }
+void F__ZdlPv(u8 *p) { LL2C_FREE(p); }
 #endif
 #ifdef NEED__ZdaPv
-void F__ZdaPv(u8 *p) { free(p); }
+void F__ZdaPv(u8 *p) { LL2C_FREE(p); }
 #endif
 int bcmp(const void *a, const void *b, unsigned long n) { return memcmp(a, b, n); }
 void __cxa_pure_virtual(void) { __CPROVER_assert(0, "PURE-VIRTUAL-CALL"); __CPROVER_assume(0); }
@@ -30,25 +31,25 @@ void __cxa_pure_virtual(void) { __CPROVER_assert(0, "PURE-VIRTUAL-CALL"); __CPRO
 #define STR_BUF(s) ((u8*)&(s)->f2)
 static u64 __ll2c_str_cap(LL2C_STRING *s) { return STR_P(s) == STR_BUF(s) ? 15 : STR_CAP(s); }
 #ifdef NEED__ZNSt7__cxx1112basic_stringIcSt11char_traitsIcESaIcEE9_M_createERmm
-u8 *F__ZNSt7__cxx1112basic_stringIcSt11char_traitsIcESaIcEE9_M_createERmm(LL2C_STRING *s, u64 *cap, u64 old) { u8 *p = malloc(*cap + 1); __CPROVER_assume(p != 0); return p; }
+u8 *F__ZNSt7__cxx1112basic_stringIcSt11char_traitsIcESaIcEE9_M_createERmm(LL2C_STRING *s, u64 *cap, u64 old) { u8 *p = LL2C_MALLOC(*cap + 1); return p; }
 #endif
 #ifdef NEED__ZNSt7__cxx1112basic_stringIcSt11char_traitsIcESaIcEE12_M_constructEmc
 void F__ZNSt7__cxx1112basic_stringIcSt11char_traitsIcESaIcEE12_M_constructEmc(LL2C_STRING *s, u64 n, u8 c) {
-  if (n > 15) { u8 *p = malloc(n + 1); __CPROVER_assume(p != 0); STR_P(s) = p; STR_CAP(s) = n; }
+  if (n > 15) { u8 *p = LL2C_MALLOC(n + 1); STR_P(s) = p; STR_CAP(s) = n; }
   if (n) LL2C_BYTE_MEMSET(STR_P(s), c, n);
   STR_LEN(s) = n; STR_P(s)[n] = 0; }
 #endif
 static void __ll2c_str_reserve(LL2C_STRING *s, u64 need) {
-  if (need > __ll2c_str_cap(s)) { u8 *p = malloc(need + 1); __CPROVER_assume(p != 0); if (STR_LEN(s)) LL2C_TYPED_MEMCPY(u8, p, STR_P(s), STR_LEN(s)); if (STR_P(s) != STR_BUF(s)) free(STR_P(s)); STR_P(s) = p; STR_CAP(s) = need; } }
+  if (need > __ll2c_str_cap(s)) { u8 *p = LL2C_MALLOC(need + 1); if (STR_LEN(s)) LL2C_TYPED_MEMCPY(u8, p, STR_P(s), STR_LEN(s)); if (STR_P(s) != STR_BUF(s)) LL2C_FREE(STR_P(s)); STR_P(s) = p; STR_CAP(s) = need; } }
 #ifdef NEED__ZNSt7__cxx1112basic_stringIcSt11char_traitsIcESaIcEE9_M_appendEPKcm
 LL2C_STRING *F__ZNSt7__cxx1112basic_stringIcSt11char_traitsIcESaIcEE9_M_appendEPKcm(LL2C_STRING *s, u8 *t, u64 n) {
   u64 len = STR_LEN(s); __ll2c_str_reserve(s, len + n); if (n) LL2C_TYPED_MEMCPY(u8, STR_P(s) + len, t, n); STR_LEN(s) = len + n; STR_P(s)[len + n] = 0; return s; }
 #endif
 #ifdef NEED__ZNSt7__cxx1112basic_stringIcSt11char_traitsIcESaIcEE10_M_replaceEmmPKcm
 LL2C_STRING *F__ZNSt7__cxx1112basic_stringIcSt11char_traitsIcESaIcEE10_M_replaceEmmPKcm(LL2C_STRING *s, u64 pos, u64 len1, u8 *t, u64 len2) {
-  u64 len = STR_LEN(s); u64 nl = len - len1 + len2; u8 *tmp = malloc(nl + 1); __CPROVER_assume(tmp != 0);
+  u64 len = STR_LEN(s); u64 nl = len - len1 + len2; u8 *tmp = LL2C_MALLOC(nl + 1);
   LL2C_TYPED_MEMCPY(u8, tmp, STR_P(s), pos); LL2C_TYPED_MEMCPY(u8, tmp + pos, t, len2); LL2C_TYPED_MEMCPY(u8, tmp + pos + len2, STR_P(s) + pos + len1, len - pos - len1);
-  __ll2c_str_reserve(s, nl); LL2C_TYPED_MEMCPY(u8, STR_P(s), tmp, nl); STR_LEN(s) = nl; STR_P(s)[nl] = 0; free(tmp); return s; }
+  __ll2c_str_reserve(s, nl); LL2C_TYPED_MEMCPY(u8, STR_P(s), tmp, nl); STR_LEN(s) = nl; STR_P(s)[nl] = 0; LL2C_FREE(tmp); return s; }
 #endif
 #endif
 #ifdef LL2C_RBNODE
